@@ -36,9 +36,13 @@ class Ctx:
 
   def __init__(self):
     self.roots = cr.Intern()
-    self.shapes = cr.Intern()
+    self._shapes = cr.Intern()
     self.uids = cr.Intern()
     self.params = []        # representatives, index = class id
+
+  def shapes(self, shape):
+    """opaque shape id with id mod 8 = rank (Model/Graph.v t_rank)"""
+    return self._shapes(tuple(shape)) * 8 + len(tuple(shape))
 
   def name(self, s):
     """name <-> (root, suffix tokens): "_quantized"->0, "_dequant"->1,
